@@ -604,7 +604,7 @@ impl World for PolicySetWorld {
     fn runs(&self, tier: Tier) -> u64 {
         match tier {
             Tier::Quick => 40_000,
-            Tier::Thorough => 800_000,
+            Tier::Thorough => 3_000_000,
         }
     }
     fn generate(&self, seed: u64, _tier: Tier) -> Case {
